@@ -297,6 +297,11 @@ class Ctx:
             return True
         if z3.is_false(t):
             return False
+        qv = getattr(self, "quant_vars", None)
+        if qv and (self._syms(t) & qv):
+            # a case split on a term that mentions a bound variable of a quantified clause would fix the variable's value
+            # for the whole path: the clause must be written branch-free (no dict subscript / Optional dereference by it)
+            raise Unsupported("case split on a quantified variable inside forall/exists")
         if getattr(self, "spec_depth", 0) > 0:
             # speculative evaluation never touches the decision vector: determined branches are followed,
             # a real fork aborts the speculation (the caller then case-splits on its guard)
